@@ -188,6 +188,18 @@ pub fn read_case(rng: &mut Rng) -> ReadCase {
         3..=4 => prog.push(' '),
         _ => prog.push('\n'),
     };
+    if n_streams == 16 && g.rng.coin() {
+        // all 16 streams open at the same time
+        g.feat("all_16_streams_opened_together");
+        for n in 0..16usize {
+            let i = g.rng.usize_below(files.len());
+            prog.push_str(&format!("\\openin{n}=r{i} "));
+            st[n] = match units[i] {
+                None => St::Open { units_left: None, tainted: false },
+                u => St::Open { units_left: u, tainted: false },
+            };
+        }
+    }
     for _ in 0..n_ops {
         sep(&mut g, &mut prog);
         let n = *g.rng.pick(&streams);
